@@ -33,7 +33,11 @@ type c16Plugin struct {
 	lastSync string
 }
 
-func (p *c16Plugin) Configure(context.Context, string, string, string) (api.EventMask, error) {
+func (p *c16Plugin) Configure(_ context.Context, config, _, _ string) (api.EventMask, error) {
+	if config == "early" {
+		// still being handled when the Start that it belongs to has already failed
+		time.Sleep(150 * time.Millisecond)
+	}
 	p.cfgOK.Add(1)
 	return 0, nil
 }
@@ -75,6 +79,10 @@ type dialSpec struct {
 	CutAt   int    `json:"cut_at,omitempty"`
 	// PartialSync: the runtime sends one acknowledged chunk of a split synchronization, then drops the connection
 	PartialSync bool `json:"partial_sync,omitempty"`
+	// EarlyConfigure: the runtime sends Configure as soon as the registration arrives, then refuses the registration
+	EarlyConfigure bool `json:"early_configure_then_refuse,omitempty"`
+	// SlowConfigure: the runtime waits this long after the registration before it configures the plugin
+	SlowConfigure time.Duration `json:"slow_configure,omitempty"`
 }
 
 type c16Session struct {
@@ -86,6 +94,8 @@ type c16Session struct {
 	err   error
 	// syncPods is what this session's (complete) synchronization carried
 	syncPods string
+	// cfgSent: the runtime has sent its Configure request in this session
+	cfgSent atomic.Bool
 }
 
 type c16Env struct {
@@ -126,6 +136,22 @@ func (e *c16Env) dial(string) (net.Conn, error) {
 	if spec.Refuse {
 		rr.OnRegister = func(*api.RegisterPluginRequest) error { return errors.New("scripted: registration refused") }
 	}
+	if spec.EarlyConfigure {
+		rr.OnRegister = func(*api.RegisterPluginRequest) error {
+			d := make(chan struct{})
+			go func() {
+				defer close(d)
+				ctx, cancel := context.WithTimeout(context.Background(), 2*time.Second)
+				defer cancel()
+				rr.Plugin.Configure(ctx, &api.ConfigureRequest{Config: "early", RuntimeName: "rt", RuntimeVersion: "1", RegistrationTimeout: 800, RequestTimeout: 500})
+			}()
+			select { // the plugin is busy handling the configuration while the registration is refused
+			case <-d:
+			case <-time.After(30 * time.Millisecond):
+			}
+			return errors.New("scripted: registration refused after configuring")
+		}
+	}
 	e.mu.Lock()
 	e.sessions = append(e.sessions, s)
 	e.mu.Unlock()
@@ -140,11 +166,15 @@ func (e *c16Env) dial(string) (net.Conn, error) {
 			s.err = errors.New("no registration")
 			return
 		}
-		if spec.Refuse || spec.Silent {
+		if spec.Refuse || spec.Silent || spec.EarlyConfigure {
 			return
+		}
+		if spec.SlowConfigure > 0 {
+			time.Sleep(spec.SlowConfigure)
 		}
 		ctx, cancel := context.WithTimeout(context.Background(), 5*time.Second)
 		defer cancel()
+		s.cfgSent.Store(true)
 		// non-zero timeouts: the stub adopts whatever it is sent
 		if _, err := rr.Plugin.Configure(ctx, &api.ConfigureRequest{Config: "c", RuntimeName: "rt", RuntimeVersion: "1", RegistrationTimeout: 800, RequestTimeout: 500}); err != nil {
 			s.err = err
@@ -248,6 +278,10 @@ func (x *c16Ctx) startOK(e *c16Env, site string) *c16Session {
 		return nil
 	}
 	s := e.last()
+	if !s.cfgSent.Load() {
+		x.viol("start-success-unconfigured", site+": Start returned success before the runtime had sent its configuration request in this session")
+		return nil
+	}
 	select {
 	case <-s.ready:
 	case <-s.gone:
@@ -381,18 +415,38 @@ func c16History(res *ev.Result, ops []string, tag string, hookDelay bool) {
 					return
 				}
 			}
-		case "start-unreachable", "start-refused", "start-silent":
+		case "start-slow":
+			if cur != nil {
+				continue
+			}
+			e.setNext(dialSpec{SlowConfigure: 250 * time.Millisecond})
+			cur = x.startOK(e, "start-in-history/"+prevOp(ops, i))
+			if cur == nil {
+				return
+			}
+			established++
+		case "start-unreachable", "start-refused", "start-silent", "start-early-configure-refused":
 			if cur != nil {
 				continue
 			}
 			var err error
-			e.setNext(map[string]dialSpec{"start-unreachable": {DialErr: true}, "start-refused": {Refuse: true}, "start-silent": {Silent: true}}[op])
+			cfgBefore := e.plug.cfgOK.Load()
+			e.setNext(map[string]dialSpec{"start-unreachable": {DialErr: true}, "start-refused": {Refuse: true}, "start-silent": {Silent: true}, "start-early-configure-refused": {EarlyConfigure: true}}[op])
 			if !x.timed("Start ("+op+")", "start."+strings.TrimPrefix(op, "start-"), func() { err = e.st.Start(context.Background()) }) {
 				return
 			}
 			if err == nil {
 				x.viol("start-success-unconfigured", "Start ("+op+") returned success although the plugin was never configured")
 				return
+			}
+			if op == "start-early-configure-refused" {
+				// the configuration request of the failed session is still being handled by the plugin: let it
+				// finish (and report its result) before the history goes on
+				before := cfgBefore
+				for i := 0; i < 2000 && e.plug.cfgOK.Load() == before; i++ {
+					time.Sleep(time.Millisecond)
+				}
+				time.Sleep(20 * time.Millisecond)
 			}
 		case "stop":
 			if !x.timed("Stop", "stop", e.st.Stop) {
@@ -527,12 +581,14 @@ func runC16(c *ev.ChildEnv, res *ev.Result) {
 		{"start-refused", "wait", "start", "event", "pause", "event"},
 		{"start-silent", "start", "event"},
 		{"start-partial-sync", "start", "event"},
+		{"start-early-configure-refused", "pause", "start-slow", "event"},
+		{"start", "stop", "start-early-configure-refused", "start-early-configure-refused", "pause", "start-slow", "event", "pause", "event"},
 		{"start", "stop", "start-partial-sync", "start-partial-sync", "start", "event", "pause", "event"},
 		{"start", "start", "event", "stop", "stop", "wait"},
 		{"wait", "stop", "start", "event", "loss", "wait", "start-unreachable", "start", "event"},
 		{"start", "stop", "start", "stop", "start", "stop", "start", "pause", "event"},
 	}
-	opsPool := []string{"start", "start", "stop", "loss", "wait", "event", "event", "pause", "start-unreachable", "start-refused", "start-partial-sync"}
+	opsPool := []string{"start", "start", "start-slow", "stop", "loss", "wait", "event", "event", "pause", "start-unreachable", "start-refused", "start-partial-sync", "start-early-configure-refused"}
 	hn := 0
 	addHist := func(ops []string) {
 		hn++
